@@ -10,7 +10,8 @@ Import ListNotations.
 From Verif Require Import Common.Base Model.SampleBuilder Model.SampleBuilderSpec
   Proofs.SampleBuilderArith Proofs.SampleBuilderIter Proofs.SampleBuilder
   Proofs.SampleBuilderScan Proofs.SampleBuilderBuild Proofs.SampleBuilderFuel Proofs.SampleBuilderFifo
-  Proofs.SampleBuilderNoPanic Proofs.SampleBuilderTop.
+  Proofs.SampleBuilderNoPanic Proofs.SampleBuilderTop Proofs.SampleBuilderInside
+  Proofs.SampleBuilderOrder Proofs.SampleBuilderOnce Proofs.SampleBuilderComplete Proofs.SampleBuilderTop2.
 Open Scope N_scope.
 
 (* ---------- uint16 / uint32 arithmetic, all values ---------- *)
@@ -100,6 +101,75 @@ Theorem c31_no_nil_dereference : forall is_head is_tail unmarshal c ops,
 Proof. exact no_nil_dereference. Qed.
 Print Assumptions c31_no_nil_dereference.
 
+(* ---------- no model fault ---------- *)
+
+(* full statement: forall is_head is_tail unmarshal c ops, history_ok ops ->
+     fault (fst (run ... c ops)) = 0
+   (no loop of the model runs out of fuel, no nil slot is dereferenced, no sample is
+   built over an active window that the tail extension has just emptied).
+   Refuted for three kinds of configuration; in each a packet ends up buffered outside
+   `filled`, a later Pop extends active.tail to filled.tail = active.head, and
+   buildSample runs over the emptied window: the emitted sample has PacketTimestamp 0
+   instead of its head packet's timestamp (and the scan no longer stops at a
+   timestamp change).
+   (a) WithMaxTimeDelay, maxLate 50: purgeBuffers releases and increments filled.head
+       once more after a forced buildSample has already advanced it to filled.tail;
+       filled becomes [tail+1, tail), 65535 slots, and the Push of seq tail wraps it
+       to empty. *)
+Theorem c31_no_fault_refuted : exists is_head is_tail unmarshal c ops,
+  history_ok ops /\ fault (fst (run is_head is_tail unmarshal c ops)) <> 0 /\
+  exists x, In x (snd (run is_head is_tail unmarshal c ops)) /\ ~ sample_ts is_tail x.
+Proof.
+  exists fk_is_head, fk_is_tail, fk_unmarshal, dcfg, w_fault_delay_ops.
+  destruct fault_witness_delay as (H1 & H2 & x & Hx & Hw).
+  split; [exact H1|]. split; [exact H2|]. exists x. split; [exact Hx|apply wrong_ts_not_sample_ts; exact Hw].
+Qed.
+Print Assumptions c31_no_fault_refuted.
+
+(* (b) the same defect without max-time-delay when maxLate = 1 *)
+Theorem c31_no_fault_maxlate1_refuted : exists is_head is_tail unmarshal c ops,
+  c_maxLateTs c = 0 /\ c_maxLate c = 1 /\
+  history_ok ops /\ fault (fst (run is_head is_tail unmarshal c ops)) <> 0 /\
+  exists x, In x (snd (run is_head is_tail unmarshal c ops)) /\ ~ sample_ts is_tail x.
+Proof.
+  exists fk_is_head, fk_is_tail, fk_unmarshal, (wcfg 1), w_fault_late1_ops.
+  destruct fault_witness_late1 as (H1 & H2 & x & Hx & Hw).
+  split; [reflexivity|]. split; [reflexivity|].
+  split; [exact H1|]. split; [exact H2|]. exists x. split; [exact Hx|apply wrong_ts_not_sample_ts; exact Hw].
+Qed.
+Print Assumptions c31_no_fault_maxlate1_refuted.
+
+(* (c) maxLate = 21845 (the bound of the partial theorem is 21844): filled.count() is
+   the shorter way round the ring, so a window of more than 65536 - maxLate slots is
+   never purged; it grows to 65535 slots and the next Push wraps it to empty with 20
+   packets still buffered.  The sample of seq 0, 1 (timestamp 5000) is emitted with
+   PacketTimestamp 0. *)
+Theorem c31_no_fault_large_maxlate_refuted : exists is_head is_tail unmarshal c ops,
+  c_maxLateTs c = 0 /\ c_maxLate c = 21845 /\
+  history_ok ops /\ fault (fst (run is_head is_tail unmarshal c ops)) <> 0 /\
+  exists x hp rest, In x (snd (run is_head is_tail unmarshal c ops)) /\
+    s_pkts x = hp :: rest /\ s_ts x <> p_ts hp.
+Proof.
+  exists fk_is_head, fk_is_tail, fk_unmarshal, (wcfg 21845), w_fault_wrap_ops.
+  destruct fault_witness_wrap as (H1 & H2 & x & Hx & Hp & Ht).
+  split; [reflexivity|]. split; [reflexivity|].
+  split; [exact H1|]. split; [exact H2|].
+  exists x, (wp 0 0 5000 1), [wp 1 1 5000 2]. split; [exact Hx|]. split; [exact Hp|].
+  rewrite Ht. vm_compute. discriminate.
+Qed.
+Print Assumptions c31_no_fault_large_maxlate_refuted.
+
+(* What is proved: without max-time-delay and with maxLate 0 or 2..21844, no history
+   raises a model fault.  The proof carries the invariant "every buffered key is
+   Inside filled, and between operations filled spans at most maxLate slots" through
+   Push, Pop, Flush and every iteration of the purge loop. *)
+Theorem c31_no_fault_partial : forall is_head is_tail unmarshal c ops,
+  c_maxLateTs c = 0 -> c_maxLate c <> 1 -> c_maxLate c <= 21844 ->
+  history_ok ops ->
+  fault (fst (run is_head is_tail unmarshal c ops)) = 0.
+Proof. intros. apply no_fault_partial; [repeat split|]; assumption. Qed.
+Print Assumptions c31_no_fault_partial.
+
 (* ---------- clause 1: every emitted sample ---------- *)
 
 (* Over every history, with no further condition: every sample returned by a
@@ -132,10 +202,11 @@ Print Assumptions c31_packet_once_within_sample.
    raises a fault when a loop runs out of fuel, when the Go code would
    dereference a nil slot, or when a sample is built although the active window
    was empty after extending its tail (then fetchTimestamp has no data and the
-   Go code uses timestamp 0).  No fault was ever raised in the correspondence
-   runs (the flag is part of every compared observation); fault-freedom of all
-   histories is not proved (the purge loop's and, for non-empty windows, the
-   scan's fuel are: c31_purge_fuel_suffices, c31_loop_fuel_suffices). *)
+   Go code uses timestamp 0).  The guard is discharged for the configurations of
+   c31_no_fault_partial (c31_sample_wellformed_partial below) and cannot be dropped
+   in general (c31_no_fault_refuted and its two companions: samples with
+   PacketTimestamp 0).  The flag is part of every compared observation of the
+   correspondence runs. *)
 Theorem c31_sample_timestamp_partial : forall is_head is_tail unmarshal c ops x,
   history_ok ops ->
   fault (fst (run is_head is_tail unmarshal c ops)) = 0 ->
@@ -143,6 +214,15 @@ Theorem c31_sample_timestamp_partial : forall is_head is_tail unmarshal c ops x,
   sample_wf is_head is_tail unmarshal (pushed_of ops) x.
 Proof. exact emitted_wf. Qed.
 Print Assumptions c31_sample_timestamp_partial.
+
+(* the same without the fault guard, on the configurations of c31_no_fault_partial *)
+Theorem c31_sample_wellformed_partial : forall is_head is_tail unmarshal c ops x,
+  c_maxLateTs c = 0 -> c_maxLate c <> 1 -> c_maxLate c <= 21844 ->
+  history_ok ops ->
+  In x (snd (run is_head is_tail unmarshal c ops)) ->
+  sample_wf is_head is_tail unmarshal (pushed_of ops) x.
+Proof. intros. apply (emitted_wf_cfg is_head is_tail unmarshal c); [repeat split| |]; assumption. Qed.
+Print Assumptions c31_sample_wellformed_partial.
 
 (* full timestamp clause: forall ... x, In x (snd (run ... ops)) -> one_timestamp x.
    Refuted: buildSample tests the partition-tail flag before the timestamp
@@ -208,14 +288,50 @@ Theorem c31_pops_in_build_order : forall is_head is_tail unmarshal c ops,
 Proof. exact pops_in_build_order. Qed.
 Print Assumptions c31_pops_in_build_order.
 
-(* Not proved (props planned_not_proved, exercised by the correspondence run
-   and the direct oracle on every generated history):
-     c31_in_order_partial, c31_each_packet_once_partial :
-       forall is_head is_tail unmarshal c ops, history_ok ops ->
-         fault (fst (run ... ops)) = 0 ->
-         (the buffer never drains between the first Push and the last Pop, and
-          every frame has one partition head) ->
-         in_order (snd (run ... ops)) /\ each_packet_once (snd (run ... ops)). *)
+(* Partial statements.  Their guards are predicates on the model's ghost event log
+   (Model/SampleBuilderSpec.v: log_ok, clean_log), which the history determines.
+
+   Order: as long as the head of the active window never gets 32767 or more sequence
+   numbers ahead of the end of the last built sample -- a re-anchoring that lands behind
+   the position already reached counts as a forward jump of 32768 or more, so the two
+   recorded causes are excluded, and so is half a ring of dropped or skipped packets
+   between two samples, where order modulo 2^16 means nothing -- the samples come out in
+   sequence-number order.  Every configuration, every depacketizer. *)
+Theorem c31_in_order_partial : forall is_head is_tail unmarshal c ops,
+  history_ok ops ->
+  log_ok (evlog (fst (run is_head is_tail unmarshal c ops))) ->
+  N.of_nat (List.length (built (fst (run is_head is_tail unmarshal c ops)))) < 65536 ->
+  in_order (snd (run is_head is_tail unmarshal c ops)).
+Proof. exact emitted_in_order. Qed.
+Print Assumptions c31_in_order_partial.
+
+(* Once: if the active window is never re-anchored while a packet of an already built
+   sample is still buffered (the negation of consumed-packets-rebuilt-after-active-
+   drained), no pushed packet is part of two samples.  Configurations of
+   c31_no_fault_partial (the proof needs every buffered key Inside filled).
+   The stronger statement with only "frames have one partition head" in place of
+   clean_log (so that a Flush after a frame of three or more packets is covered) is
+   not proved. *)
+Theorem c31_each_packet_once_partial : forall is_head is_tail unmarshal c ops,
+  c_maxLateTs c = 0 -> c_maxLate c <> 1 -> c_maxLate c <= 21844 ->
+  history_ok ops ->
+  clean_log (evlog (fst (run is_head is_tail unmarshal c ops))) ->
+  N.of_nat (List.length (built (fst (run is_head is_tail unmarshal c ops)))) < 65536 ->
+  each_packet_once (snd (run is_head is_tail unmarshal c ops)).
+Proof. intros. apply emitted_once; [repeat split| | |]; assumption. Qed.
+Print Assumptions c31_each_packet_once_partial.
+
+(* both guards hold of a history with reordering, sequence-number wrap, multi-packet
+   frames and a final Flush that emits four samples; they fail on the witnesses of the
+   two refuted statements above *)
+Example c31_order_once_guards_nontrivial :
+  history_ok w_ord_ops /\
+  log_ok (evlog (fst (run fk_is_head fk_is_tail fk_unmarshal (wcfg 50) w_ord_ops))) /\
+  clean_log (evlog (fst (run fk_is_head fk_is_tail fk_unmarshal (wcfg 50) w_ord_ops))) /\
+  N.of_nat (List.length (built (fst (run fk_is_head fk_is_tail fk_unmarshal (wcfg 50) w_ord_ops)))) < 65536 /\
+  map (fun x => map p_seq (s_pkts x)) (snd (run fk_is_head fk_is_tail fk_unmarshal (wcfg 50) w_ord_ops))
+  = [[65534; 65535; 0]; [1; 2; 3]; [4; 5; 6]; [7]].
+Proof. exact w_ord_guards. Qed.
 
 (* ---------- clause 3: completeness after Flush ---------- *)
 
@@ -239,14 +355,69 @@ Proof.
 Qed.
 Print Assumptions c31_complete_full_refuted.
 
-(* Not proved (planned_not_proved; the "complete-*" classes of the harness check
-   it on every generated stream, 4 <= 2 d + 4 <= maxLate, frames of 1..6 packets):
+(* The statement planned in the first round,
+     forall c fs ops d, stream_ok fs -> delivers d fs ops ->
+       2 * N.of_nat d + 4 <= c_maxLate c -> c_maxLateTs c = 0 -> first_pushed_is_lowest fs ops ->
+       all_frames_emitted fs (snd (run ... (ops ++ OFlush :: repeat OPop (length fs)))),
+   is false as well: maxLate has to cover the frame length, not only the reordering.  A frame of
+   six packets delivered in order (d = 0) with a Pop after every Push and maxLate 4: when
+   filled.count() exceeds maxLate the forced build finds no frame end yet and purgeBuffers
+   drops the frame's first packet. *)
+Theorem c31_complete_long_frame_refuted : exists c fs ops d,
+  stream_ok fk_is_head fk_is_tail fs /\ delivers d fs ops /\
+  2 * N.of_nat d + 4 <= c_maxLate c /\ c_maxLateTs c = 0 /\ first_pushed_is_lowest fs ops /\
+  history_ok ops /\
+  fault (fst (run fk_is_head fk_is_tail fk_unmarshal c (ops ++ OFlush :: repeat OPop (List.length fs)))) = 0 /\
+  ~ all_frames_emitted fs
+      (snd (run fk_is_head fk_is_tail fk_unmarshal c (ops ++ OFlush :: repeat OPop (List.length fs)))).
+Proof.
+  exists (wcfg 4), w_long_frames, w_long_ops, 0%nat.
+  destruct long_frame_witness as (H1 & H2 & H3 & H4 & H5 & H6).
+  split; [exact H1|]. split; [exact H2|]. split; [vm_compute; discriminate|]. split; [reflexivity|].
+  split; [exact H3|]. split; [exact H4|]. split; [exact H5|exact H6].
+Qed.
+Print Assumptions c31_complete_long_frame_refuted.
+
+(* What is proved: the case d = 0.  A loss-free stream of well-formed frames pushed in
+   sequence order, with Pops anywhere in between and no Flush before the end, no frame
+   longer than maxLate, no max-time-delay, every payload accepted by Unmarshal: after
+   Flush, one Pop per frame returns every frame.  (delivers 0 makes the pushes the
+   stream itself, so first_pushed_is_lowest holds.)  Any maxLate, any depacketizer.
+   The proof describes the state after k pushes against the stream: the buffer holds
+   exactly the packets lo .. k-1, filled = [seq lo, seq k), the frames before a frame
+   boundary a (lo <= a <= k) are built in order, and the active window is empty or
+   [seq a, seq x) with a < x <= k; Flush builds the remaining frames and leaves no
+   partition head behind. *)
+Theorem c31_complete_inorder_partial : forall is_head is_tail unmarshal c fs ops,
+  stream_ok is_head is_tail fs -> delivers 0 fs ops ->
+  c_maxLateTs c = 0 ->
+  (forall f, In f fs -> N.of_nat (List.length f) <= c_maxLate c) ->
+  (forall p, In p (concat fs) -> unmarshal (p_payload p) <> None) ->
+  all_frames_emitted fs
+    (snd (run is_head is_tail unmarshal c (ops ++ OFlush :: repeat OPop (List.length fs)))).
+Proof. exact complete_inorder. Qed.
+Print Assumptions c31_complete_inorder_partial.
+
+(* its premises hold of four frames (3, 3, 3, 1 packets) across the sequence-number wrap,
+   pushed in order with a Pop after every Push, maxLate 50 *)
+Example c31_complete_inorder_nontrivial :
+  stream_ok fk_is_head fk_is_tail w_inorder_frames /\ delivers 0 w_inorder_frames w_inorder_ops /\
+  (forall f, In f w_inorder_frames -> N.of_nat (List.length f) <= c_maxLate (wcfg 50)) /\
+  (forall p, In p (concat w_inorder_frames) -> fk_unmarshal (p_payload p) <> None).
+Proof. exact w_inorder_premises. Qed.
+
+(* Not proved (planned_not_proved; the "complete-*" classes of the harness check it on every
+   generated stream, 4 <= 2 d + 4 <= maxLate, frames of 1..6 packets, maxLate >= 16): the
+   statement with reordering,
      c31_complete_partial :
-       forall c fs ops d, stream_ok fs -> delivers d fs ops ->
-         2 * N.of_nat d + 4 <= c_maxLate c -> c_maxLateTs c = 0 ->
-         first_pushed_is_lowest fs ops ->
+       forall c fs ops d len, stream_ok fs -> delivers d fs ops ->
+         Forall (fun f => length f <= len) fs -> N.of_nat (len + d) <= c_maxLate c ->
+         c_maxLateTs c = 0 -> c_maxLate c <> 1 -> first_pushed_is_lowest fs ops ->
+         (forall p, In p (concat fs) -> unmarshal (p_payload p) <> None) ->
          all_frames_emitted fs (snd (run ... (ops ++ OFlush :: repeat OPop (length fs)))).
-   The guard is sufficient as far as tested, not necessary: *)
+   (bound len + d <= maxLate as far as tested on the model; with d > 0 the buffer has holes and
+   the state is no longer a contiguous run of the stream, which is what the proof above uses.)
+   The guard first_pushed_is_lowest is sufficient as far as tested, not necessary: *)
 Example c31_complete_without_early_pop :
   all_frames_emitted w_frames
     (snd (run fk_is_head fk_is_tail fk_unmarshal (wcfg 50)
@@ -263,3 +434,9 @@ Example c31_sample_run_nontrivial :
 Proof.
   split; [apply complete_witness|]. split; vm_compute; reflexivity.
 Qed.
+
+(* the configuration guard of c31_no_fault_partial holds of the usual configuration
+   (maxLate 50, no max-time-delay), on which w_complete_ops emits two samples *)
+Example c31_no_fault_guard_nontrivial :
+  c_maxLateTs (wcfg 50) = 0 /\ c_maxLate (wcfg 50) <> 1 /\ c_maxLate (wcfg 50) <= 21844.
+Proof. exact fault_free_cfg_50. Qed.
